@@ -195,6 +195,25 @@ def main():
     evals = sum(s['evaluations'] for rr in rres for s in rr['stats'].values())
     distinct = sum(s['distinct_nontrivial'] for rr in rres for s in rr['stats'].values())
     if cfg.get('R') and evals == 0 and not broken: broken.append('engine R evaluated zero cases')
+    # ------------------------------------------------------------------ contract / implementation cross-check on recorded real executions
+    trace_stats = None
+    if cfg.get('traces'):
+        try:
+            tpath = tempfile.mktemp(prefix='traces_', suffix='.json', dir=os.path.join(ROOT, 'replays'))
+            env = dict(os.environ); env['PYTHONPATH'] = REPO + os.pathsep + ROOT
+            n_tr = 40 if tier == 'quick' else 400
+            subprocess.run([VENV_PY, '-W', 'ignore', '-m', cfg['traces'], tpath, str(n_tr), str(seed)], cwd=ROOT, env=env, capture_output=True, text=True, timeout=600)
+            from pyvc.trace_check import check as trace_check
+            trace_stats = trace_check(json.load(open(tpath)), 120 if tier == 'quick' else 1200); os.unlink(tpath)
+            per = {}
+            for f in trace_stats['failed']: per[(f['op'], f['clause'])] = per.get((f['op'], f['clause']), 0) + 1
+            trace_stats['unconfirmed_by_clause'] = {'%s#%s' % k: v for k, v in per.items()}
+            if trace_stats['clauses'] == 0: broken.append('trace cross-check evaluated no clause')
+            elif trace_stats['confirmed'] < 0.9 * trace_stats['clauses']:
+                broken.append('contracts do not describe the real executions: only %d of %d clause instances confirmed (%r)' % (trace_stats['confirmed'], trace_stats['clauses'], trace_stats['unconfirmed_by_clause']))
+            trace_stats['failed'] = trace_stats['failed'][:3]
+        except Exception as e:
+            broken.append('trace cross-check could not run: %s' % (traceback.format_exc()[-400:],))
     # ------------------------------------------------------------------ prelude soundness (thorough tier): the axioms of pyvc/theory.py as Lean theorems
     lean_status = 'not run (quick tier)'
     if tier == 'thorough' and cfg.get('P'):
@@ -227,7 +246,7 @@ def main():
         rule='bounded part (engine R): cases enumerated per contract clause as stated in `bounded[].bounds`; a case is distinct/non-trivial when its literal input differs from all earlier ones and satisfies the clause precondition',
         samples=samples or ['(none)'],
         explanation=cfg.get('explanation', ''),
-        lean_prelude=lean_status, exhaustive=False, known_findings_reported=sorted(reported_known), undecided=undecided, checker_problems=broken)
+        lean_prelude=lean_status, contract_vs_implementation=trace_stats, traces_validated_against_impl=(trace_stats or {}).get('traces', 0), exhaustive=False, known_findings_reported=sorted(reported_known), undecided=undecided, checker_problems=broken)
     if not evals:
         cov.pop('evaluations'); cov.pop('distinct_nontrivial')
         if level != 'proof': cov['evaluations'] = 1; cov['distinct_nontrivial'] = 0
